@@ -24,6 +24,15 @@ type Harness struct {
 	Func  string
 	Bound string // human readable bound of this harness
 	Opts  gose.Options
+	// Key names the failing obligation of a violation (default: Func + "/" + message). A harness
+	// whose inputs select a cell of a table puts the cell into the key, so that every cell is a
+	// finding of its own.
+	Key func(v gose.Violation) string
+	// Confirm is consulted after the native replay reproduced the violation; it may veto (e.g.
+	// LLVM accepts the module that the harness's own rule rejected). dir is the replay directory.
+	Confirm func(v gose.Violation, dir string, out string) (note string, ok bool)
+	// ReplayEnv is added to the environment of the native replay.
+	ReplayEnv []string
 }
 
 type Suite struct {
@@ -75,6 +84,9 @@ func (s *Suite) Run(h Harness) *gose.Stats {
 		}
 	}
 	opts.KeepPaths = 2
+	if h.Key != nil && opts.KeyFn == nil {
+		opts.KeyFn = h.Key
+	}
 	st := s.prog.Explore(gose.ModPath+"/"+h.Pkg, h.Func, opts)
 	s.R.AddPaths(st.Paths, st.Branches)
 	s.R.Oblige(st.Asserts + st.Paths) // explicit assertions + one implicit "no fault, terminates" obligation per path
@@ -97,8 +109,15 @@ func (s *Suite) Run(h Harness) *gose.Stats {
 	// discharge is reduced by every violation found
 	for _, v := range st.Violations {
 		s.R.Discharge(-1)
-		txt, confirmed := s.Replay(h, v)
 		key := h.Func + "/" + v.Msg
+		if h.Key != nil {
+			key = h.Key(v)
+		}
+		if s.R.IsKnown(key) {
+			s.R.Violate(key, "", "")
+			continue
+		}
+		txt, confirmed := s.Replay(h, v)
 		what := fmt.Sprintf("%s: %s: %s; inputs %s", h.Func, v.Kind, v.Msg, gose.ModelString(v.Model))
 		if confirmed {
 			s.R.Replayed++
@@ -176,7 +195,7 @@ func (s *Suite) Replay(h Harness, v gose.Violation) (string, bool) {
 	os.WriteFile(modelPath, mb, 0o644)
 	cmd := exec.Command("go", "test", "-vet=off", "-count=1", "-run", "^TestVerifReplay$", "-overlay", ovPath, "./"+h.Pkg)
 	cmd.Dir = build.Repo
-	cmd.Env = append(append(os.Environ(), build.GoEnv()...), "VERIF_REPLAY="+modelPath)
+	cmd.Env = append(append(append(os.Environ(), build.GoEnv()...), "VERIF_REPLAY="+modelPath, "VERIF_IR_OUT="+filepath.Join(dir, "module")), h.ReplayEnv...)
 	done := make(chan struct{})
 	var out []byte
 	go func() { out, err = cmd.CombinedOutput(); close(done) }()
@@ -197,7 +216,12 @@ func (s *Suite) Replay(h Harness, v gose.Violation) (string, bool) {
 		return txt, failed && (strings.Contains(o, "stack overflow") || strings.Contains(o, "out of memory"))
 	}
 	if v.Kind == "assert" {
-		return txt, failed && strings.Contains(o, "VERIF-ASSERT: "+v.Msg)
+		ok := failed && strings.Contains(o, "VERIF-ASSERT: "+v.Msg)
+		if ok && h.Confirm != nil {
+			note, keep := h.Confirm(v, dir, o)
+			return txt + "\n--- confirmation ---\n" + note, keep
+		}
+		return txt, ok
 	}
 	// implicit obligation: any panic of the real code reproduces it
 	return txt, failed && strings.Contains(o, "panic")
